@@ -109,7 +109,7 @@ def classes(spec):
         c.append("derived-param")
     if len(spec["derived"]) > 1:
         c.append("derived-chain")
-    if spec.get("state_decl") == "range":
+    if str(spec.get("state_decl", "")).startswith("range"):
         c.append("range-style")
     if str(spec.get("state_decl", "")).startswith("string"):
         c.append("string-declaration")
@@ -123,6 +123,9 @@ def state_argument(spec):
     st = list(spec["states"])
     if decl == "range":
         return ["y1:%d" % (len(st) + 1)]
+    if decl == "range-limits":       # one (name-range, limits) tuple: the limits are meant for every state of the range
+        l = (spec.get("limits") or [[0, None]])[0]
+        return [("y1:%d" % (len(st) + 1), (l[0], l[1]))]
     if decl == "string-comma":
         return ",".join(st)
     if decl == "string-space":
@@ -221,6 +224,75 @@ def build_mixed(spec, rng, backend="lambda"):
     if backend is not None:
         m._SC = ode_utils.compileCode(backend=backend)
     return m, order_ev + order_tr + order_bd + order_later
+
+
+def growable(spec):
+    """A spec can be built in two stages when it has >= 2 states, no derived parameters, no range-style names, default limits for
+    every state but (possibly) the first ones, and at least one event / ODE term that only involves a proper prefix of the states."""
+    if len(spec["states"]) < 2 or spec["derived"] or str(spec.get("state_decl", "")).startswith("range"):
+        return 0
+    import re
+    st = spec["states"]
+    lims = spec.get("limits") or [[0, None]] * len(st)
+
+    def last_state(texts, names):
+        idx = [st.index(n) for n in names if n]
+        for k, n in enumerate(st):
+            if any(re.search(r"\b%s\b" % re.escape(n), tx) for tx in texts):
+                idx.append(k)
+        return max(idx) if idx else 0
+    need = [last_state([e["rate"]] + [str(t[3]) for t in e["trans"]], [t[1] for t in e["trans"]] + [t[2] for t in e["trans"]]) for e in spec["events"]]
+    need_o = [last_state([eq], [s_]) for s_, eq in spec["odes"]]
+    best = 0
+    for k in range(1, len(st)):
+        if all(list(l) == [0, None] for l in lims[k:]) and (any(n < k for n in need) or any(n < k for n in need_o)) \
+                and (any(n >= k for n in need) or any(n >= k for n in need_o)):
+            best = k
+    spec["_need"], spec["_need_o"] = need, need_o
+    return best
+
+
+def build_grown(spec, rng, theta, k, backend="lambda"):
+    """The model is built for the first k states with the processes among them, EVALUATED, and then extended: remaining states through the
+    state_list setter, remaining processes through add_event / event_list / add_ode.  Returns (model, event order in the model)."""
+    from pygom import Event, SimulateOde, Transition
+    from pygom.model import ode_utils
+    import numpy as np
+    st = spec["states"]
+    need, need_o = spec["_need"], spec["_need_o"]
+    first = [j for j, n in enumerate(need) if n < k]
+    later = [j for j, n in enumerate(need) if n >= k]
+    sub = dict(spec, states=st[:k], limits=(spec.get("limits") or [[0, None]] * len(st))[:k])
+    mk = lambda e: Event(rate=e["rate"], transition_list=[make_transition(t) for t in e["trans"]])
+    od = [Transition(origin=s_, equation=eq, transition_type="ODE") for (s_, eq), n in zip(spec["odes"], need_o) if n < k]
+    m = SimulateOde(state=state_argument(sub), param=param_argument(spec), event=[mk(spec["events"][j]) for j in first] or None, ode=od or None)
+    if backend is not None:
+        m._SC = ode_utils.compileCode(backend=backend)
+    m.parameters = list(theta)
+    x = np.array([round(rng.uniform(1, 5), 3) for _ in range(k)])
+    m.get_ode_eqn()
+    m.ode(x, 0.3)
+    m.jacobian(x, 0.3)
+    if first:
+        m.get_StateChangeMatrix()
+        m.vMat(x, 0.3)
+        m.eventRateVector(x, 0.3)
+        m.transitionMean(x, 0.3)
+    rest = st[k:]
+    if rng.random() < 0.5:
+        m.state_list = list(rest)
+    else:
+        for s_ in rest:
+            m.state_list = s_ if rng.random() < 0.5 else [s_]
+    for j in later:
+        if rng.random() < 0.6:
+            m.add_event(mk(spec["events"][j]))
+        else:
+            m.event_list = [mk(spec["events"][j])]
+    for (s_, eq), n in zip(spec["odes"], need_o):
+        if n >= k:
+            m.add_ode(Transition(origin=s_, equation=eq, transition_type="ODE"))
+    return m, first + later
 
 
 def permuted_spec(spec, order):
